@@ -186,6 +186,8 @@ fn scenarios(thorough: bool) -> Vec<FaultScenario> {
 		vec![FeOp::Call, FeOp::Notif, FeOp::LateCall],
 		vec![FeOp::Call, FeOp::Batch(2), FeOp::Subscribe],
 		vec![FeOp::LateCall],
+		vec![FeOp::SubscribeDrop, FeOp::Call],
+		vec![FeOp::SubscribeDrop, FeOp::LateCall],
 	];
 	if thorough {
 		histories.extend([
@@ -197,7 +199,7 @@ fn scenarios(thorough: bool) -> Vec<FaultScenario> {
 		]);
 	}
 	for ops in histories {
-		let sends = ops.iter().filter(|o| **o != FeOp::LateCall).count();
+		let sends = ops.iter().filter(|o| **o != FeOp::LateCall).count() + ops.iter().filter(|o| **o == FeOp::SubscribeDrop).count();
 		let mut faults = Vec::new();
 		for n in 0..=sends {
 			faults.push(Fault::Send(n));
@@ -216,7 +218,10 @@ fn scenarios(thorough: bool) -> Vec<FaultScenario> {
 		for f in faults {
 			// answer none / the first / (thorough) every request normally before or around the fault
 			let mut answered_sets: Vec<Vec<usize>> = vec![vec![]];
-			if sends >= 1 {
+			if ops[0] == FeOp::SubscribeDrop {
+				// the subscribe call is acknowledged, so that dropping the stream produces an unsubscribe request
+				answered_sets = vec![vec![0]];
+			} else if sends >= 1 {
 				answered_sets.push(vec![0]);
 			}
 			if thorough && sends >= 2 {
